@@ -1224,7 +1224,7 @@ INT_WIDTH = {"int": (32, True), "unsigned int": (32, False), "uint32_t": (32, Fa
 ENUM_TYPES = {}
 # std::vector members read through operator[] (never resized by the translated code)
 VECTOR_T = {"std::vector<arr_real>": "Array (Array α)", "std::vector<int>": "Array Int",
-            "std::vector<base_array<double>>": "Array (Array α)"}
+            "std::vector<base_array<double>>": "Array (Array α)", "std::vector<cmplx_t>": "Array (Cx α)"}
 
 
 def load_enum(tu, name):
@@ -1517,7 +1517,7 @@ class StepTr(Tr):
         ta = canon_type(strip_type(qt(n)))
         if ta in VECTOR_T and len(args) == 1:
             ct = canon_type(n.get("ctorType", {}).get("qualType", ""))
-            if re.match(r"void \((const )?std::vector<(base_array<double>|int)> &&?\)( noexcept)?$", ct):
+            if re.match(r"void \((const )?std::vector<(base_array<double>|int|cmplx_t)> &&?\)( noexcept)?$", ct):
                 a0 = unwrap(args[0])
                 while a0.get("kind") == "ImplicitCastExpr" and a0.get("castKind") == "NoOp":
                     a0 = unwrap(a0["inner"][0])
@@ -1650,7 +1650,7 @@ class StepTr(Tr):
             return None
         r, idx = vi
         self.prims.add("ptrGet")
-        dflt = "#[]" if r[2] == "Array (Array α)" else "(0 : Int)"
+        dflt = {"Array (Array α)": "#[]", "Array Int": "(0 : Int)", "Array (Cx α)": "zeroC"}[r[2]]
         return "(ptrGet %s %s %s)" % (dflt, self.vec_cur(r), idx)
 
     def e_CXXOperatorCallExpr(self, n):
@@ -1987,6 +1987,10 @@ class StepTr(Tr):
                 val = self.e(v)
             else:
                 raise Unsupported("fill value of type %s" % qt(v))
+        elif v.get("kind") == "CXXTemporaryObjectExpr" and kind_of_type(qt(v)) == "cx" and v.get("inner") and \
+                all(a.get("kind") == "CXXDefaultArgExpr" for a in v["inner"]) and \
+                canon_type(v.get("ctorType", {}).get("qualType", "")) == "void (real_t, real_t)":
+            val = "zeroC"       # `cmplx_t()`: both default arguments (CHECKED to be 0 in unit StepsBase)
         else:
             if v.get("kind") != "IntegerLiteral":
                 raise Unsupported("fill of a complex array with a value other than an integer literal")
@@ -2247,6 +2251,21 @@ class StepTr(Tr):
                         raise Unsupported("std::vector(n, v) with v : %s" % qt(a1))
                     # std::vector(size_type n, const value_type& v): n copies of v (a negative `int` n converts to a huge size: throws; here empty)
                     val = "(vecNew %s %s)" % (self.e(a0), self.e(a1))
+                    text = self.flush() + "let %s : %s := %s\n" % (v, lt, val)
+                    self.vec_locals[d["name"]] = (v, lt, "const" in qt(d))
+                    self.declare(v, lt)
+                    return text + cont()
+                if i0.get("kind") in ("CXXTemporaryObjectExpr", "CXXConstructExpr") and lt == "Array (Cx α)" and \
+                        ct == "void (std::vector::size_type, const std::vector<cmplx_t>::allocator_type &)":
+                    a0 = i0["inner"][0]
+                    if a0.get("kind") == "ImplicitCastExpr" and a0.get("castKind") == "IntegralCast":
+                        a0 = a0["inner"][0]
+                    if canon_type(strip_type(qt(a0))) != "int":
+                        raise Unsupported("std::vector(n) with n : %s" % qt(a0))
+                    # std::vector<cmplx_t>(size_type n): n value-initialised elements = `cmplx_t()` (`zeroC`, CHECKED in unit StepsBase);
+                    # a negative `int` n converts to a huge size: throws; here empty
+                    self.prims.add("vecNewC")
+                    val = "(vecNewC %s)" % self.e(a0)
                     text = self.flush() + "let %s : %s := %s\n" % (v, lt, val)
                     self.vec_locals[d["name"]] = (v, lt, "const" in qt(d))
                     self.declare(v, lt)
@@ -5909,6 +5928,689 @@ def gen_steps_fftfilter():
 
 
 # ------------------------------------------------------------------------------------------
+# unit: StepsDetector  (lib/detector.cpp: `_is_valid`, `CDelay<cmplx_t>` (constructor, push, extract), `PreambleDetectorImpl`
+#                       (constructor, `_convert_impulse`, `frame_len`, the WHOLE `process` incl. the first-hit sample loop);
+#                       lib/ma-filter.h: `MAFilter<real_t>::process(const base_array<T>&)`; include/dsplib/fir.h: `FftFilter::block_size`;
+#                       lib/math.cpp: `abs2(const arr_cmplx&)`, `rms(const arr_cmplx&)` translated; array operators / flip PINNED)
+
+DETECTOR_TU = '#include "detector.cpp"\n'
+CDELAY_TABLE = {"_idx": "int", "_size": "int", "_buf": "std::vector<cmplx_t>"}
+DETECTOR_TABLE = {"_corr_flt": "FftFilter", "_pow_flt": "MAFilterR", "_threshold": "real_t", "_delay": "CDelay<cmplx_t>"}
+DETRESULT_TABLE = {"offset": "int", "preamble": "arr_cmplx", "score": "real_t"}
+
+DETECTOR_PINS = {
+    # template<class T2, class R = ResultType<T, T2>> base_array<R> operator+(const T2& rhs) const { auto temp = array_cast<R>(*this); temp += rhs; return temp; }
+    "operator+(scalar)": ['c343fcd22aec87db'],
+    # … base_array<R>& operator+=(const T2& rhs) noexcept { static_assert(is_same<T, R>); for (size_t i = 0; i < _vec.size(); ++i) _vec[i] += rhs; return *this; }
+    "operator+=(scalar)": ['6e55fe6ed86b39c0'],
+    # template<class T2, class R = ResultType<T, T2>> base_array<R> operator/(const base_array<T2>& rhs) const { auto temp = array_cast<R>(*this); temp /= rhs; return temp; }
+    "operator/(array)": ['96713df59c37c2a1'],
+    # … base_array<R>& operator/=(const base_array<T2>& rhs) { DSPLIB_ASSERT(this->size() == rhs.size(), …); for (i < _vec.size()) _vec[i] /= rhs[i]; return *this; }
+    "operator/=(array)": ['d4c86700989cbb3f'],
+    # base_array(std::vector<T>&& v) : _vec(std::move(v)) {}
+    "base_array(vector&&)": ['23b6d2e1ab0c91d3'],
+    # arr_cmplx flip(const arr_cmplx& x) { arr_cmplx r(x); std::reverse(r.begin(), r.end()); return r; }   (lib/utils.cpp)
+    "flip(arr_cmplx)": ['7e9788c7181584f4'],
+}
+
+HIT_NONE = "\x00HIT_NONE\x00"
+
+
+class DetTr(StepTr):
+    """StepTr + what lib/detector.cpp needs: calls on sub-objects / on the object itself resolved BY SIGNATURE (method name, Lean types of
+    the arguments, Lean type of the result), `void` sub-object calls as statements, a local of a plain struct type whose fields are
+    all assigned before it is returned, `std::optional` results (`return res;` / `return std::nullopt;`), and a counted loop whose
+    body may `return` (first-hit search: `firstHit`)."""
+
+    def __init__(self, **kw):
+        self.sig_ops = kw.pop("sig_ops", {})         # member (or None = the object itself) -> {(method, (arg types…), ret type): (lean fn, effect)}
+        self.struct_types = kw.pop("struct_types", {})   # canonical C++ struct type -> (lean structure, {field: (lean field, lean type)})
+        self.opt_of = kw.pop("opt_of", {})           # canonical std::optional<…> type -> canonical struct type
+        so = {m: {"ops": {}} for m in self.sig_ops if m is not None}
+        super().__init__(subobjs=so, **kw)
+        self.struct_locals = {}
+        self.hit_ctx = False
+        self.n_hits = 0
+
+    def op_lookup(self, m, meth, n, arg_nodes):
+        key = (meth, tuple(lean_type_of(qt(a)) for a in arg_nodes), lean_type_of(qt(n)) if canon_type(qt(n)) != "void" else "Unit")
+        tab = self.sig_ops.get(m, {})
+        if key not in tab:
+            raise Unsupported("call of %s%s with argument types %s returning %s" % (
+                (m + ".") if m else "", meth, [qt(a) for a in arg_nodes], qt(n)))
+        return tab[key]
+
+    def call_op(self, m, meth, n, arg_nodes):
+        """a call of a generated function on the sub-object `m` (or on the object itself, m = None)"""
+        lean, effect = self.op_lookup(m, meth, n, arg_nodes)
+        args = [self.e(a) for a in arg_nodes]
+        cur = self.mref(m) if m is not None else self.svar()
+        if not effect:
+            return "(%s %s%s)" % (lean, cur, "".join(" " + a for a in args))
+        self.hoist(None)
+        base = self.members[m][0] if m is not None else lean.split(" ")[0]
+        r = "r_%s" % base
+        k = 0
+        while r in self.bound:
+            k += 1
+            r = "r_%s_%d" % (base, k)
+        self.bound.add(r)
+        self.pre.append("let %s := %s %s%s\n" % (r, lean, cur, "".join(" " + a for a in args)))
+        if m is not None:
+            self.pre.append(self.set_member(m, "%s.1" % r))
+        else:
+            for f in self.members:
+                self.mref(f, write=True)
+            self.note_assigned(self.svar())
+            self.pre.append("let %s := %s.1\n" % (self.svar(), r))
+        return "%s.2" % r
+
+    def e_CXXMemberCallExpr(self, n):
+        me = unwrap(n["inner"][0])
+        base = me["inner"][0]
+        arg_nodes = [a for a in n["inner"][1:] if a.get("kind") != "CXXDefaultArgExpr"]
+        if len(arg_nodes) != len(n["inner"]) - 1:
+            return super().e_CXXMemberCallExpr(n)
+        m = self.member_of_obj(base)
+        if m is not None and m in self.sig_ops:
+            return self.call_op(m, me["name"], n, arg_nodes)
+        if self.is_obj(base) and None in self.sig_ops and me["name"] in [k[0] for k in self.sig_ops[None]]:
+            return self.call_op(None, me["name"], n, arg_nodes)
+        return super().e_CXXMemberCallExpr(n)
+
+    def e_CXXConstructExpr(self, n):
+        args = [a for a in n.get("inner", []) if a.get("kind") != "CXXDefaultArgExpr"]
+        ta = canon_type(strip_type(qt(n)))
+        ct = canon_type(n.get("ctorType", {}).get("qualType", ""))
+        if ta in ARRAY_CX_T and len(args) == 1 and ct == "void (std::vector<cmplx_t> &&)":
+            # base_array(std::vector<T>&& v) : _vec(std::move(v))   (PINNED in this unit): the same elements
+            self.prims.add("arrOfVec")
+            return "(arrOfVec %s)" % self.e(args[0])
+        return super().e_CXXConstructExpr(n)
+
+    def struct_local(self, n):
+        n = unwrap(n)
+        if n.get("kind") == "ImplicitCastExpr" and n.get("castKind") == "NoOp":
+            n = unwrap(n["inner"][0])
+        if n.get("kind") == "DeclRefExpr" and n.get("referencedDecl", {}).get("kind") == "VarDecl" and \
+                n["referencedDecl"].get("name") in self.struct_locals and \
+                self.struct_locals[n["referencedDecl"]["name"]]["id"] == n["referencedDecl"].get("id"):
+            return n["referencedDecl"]["name"]
+        return None
+
+    def e_DeclRefExpr(self, n):
+        if n.get("referencedDecl", {}).get("name") in self.struct_locals:
+            raise Unsupported("struct local `%s` used other than as `%s.field = …` / `return %s`" % ((n["referencedDecl"]["name"],) * 3))
+        return super().e_DeclRefExpr(n)
+
+    def opt_return(self, s):
+        """`return res;` / `return std::nullopt;` in a function returning std::optional<S> -> Lean `Option` text, or None"""
+        if not s.get("inner"):
+            return None
+        e = s["inner"][0]
+        while e.get("kind") in ("ExprWithCleanups", "MaterializeTemporaryExpr", "CXXBindTemporaryExpr") or \
+                (e.get("kind") == "ImplicitCastExpr" and e.get("castKind") in ("ConstructorConversion", "NoOp")):
+            e = e["inner"][0]
+        ot = canon_type(strip_type(qt(e)))
+        if e.get("kind") != "CXXConstructExpr" or ot not in self.opt_of:
+            return None
+        st = self.opt_of[ot]
+        ct = canon_type(e.get("ctorType", {}).get("qualType", ""))
+        args = e.get("inner", [])
+        if ct == "void (std::nullopt_t) noexcept" and len(args) == 1:
+            a = args[0]
+            while a.get("kind") == "CXXConstructExpr" and len(a.get("inner", [])) == 1 and canon_type(strip_type(qt(a))) == "std::nullopt_t":
+                a = a["inner"][0]
+            if a.get("kind") == "DeclRefExpr" and a["referencedDecl"].get("name") == "nullopt" and canon_type(qt(a)) == "const std::nullopt_t":
+                return "none"
+            raise Unsupported("std::optional constructed from something other than std::nullopt")
+        if re.match(r"void \((const )?%s &&?\)" % re.escape(st), ct) and len(args) == 1:
+            nm = self.struct_local(args[0])
+            if nm is None:
+                raise Unsupported("std::optional constructed from something other than a struct local")
+            sl = self.struct_locals[nm]
+            lstruct, fields = self.struct_types[st]
+            missing = [f for f in fields if f not in sl["fields"]]
+            if missing:
+                raise Unsupported("`%s` is returned before its field(s) %s are assigned" % (nm, missing))
+            return "(some { %s })" % ", ".join("%s := %s" % (fields[f][0], sl["fields"][f]) for f in fields)
+        raise Unsupported("construction of %s through %s" % (ot, ct))
+
+    def result_text(self, opt):
+        r = "(%s, %s)" % (self.svar(), opt)
+        if self.hit_ctx:
+            return r
+        return ("(.ok %s)" % r) if self.fallible else r
+
+    def stmts(self, lst, final, throws=False):
+        if not lst:
+            return final
+        s, rest = lst[0], lst[1:]
+        su = s
+        while su.get("kind") == "ExprWithCleanups" and len(su.get("inner", [])) == 1:
+            su = su["inner"][0]
+        k = su.get("kind")
+        cont = lambda: self.stmts(rest, final)
+        if k == "CXXMemberCallExpr" and canon_type(qt(su)) == "void":
+            me = unwrap(su["inner"][0])
+            m = self.member_of_obj(me["inner"][0])
+            arg_nodes = list(su["inner"][1:])
+            if m is not None and m in self.sig_ops and not any(a.get("kind") == "CXXDefaultArgExpr" for a in arg_nodes):
+                lean, effect = self.op_lookup(m, me["name"], su, arg_nodes)
+                if not effect:
+                    raise Unsupported("void call %s.%s without effect" % (m, me["name"]))
+                args = [self.e(a) for a in arg_nodes]
+                cur = self.mref(m)
+                pre = self.flush()
+                return pre + self.set_member(m, "(%s %s%s)" % (lean, cur, "".join(" " + a for a in args))) + cont()
+        sb = su
+        while sb.get("kind") == "CXXBindTemporaryExpr" and len(sb.get("inner", [])) == 1:
+            sb = sb["inner"][0]
+        if sb.get("kind") == "CXXMemberCallExpr" and canon_type(qt(sb)) != "void":
+            me = unwrap(sb["inner"][0])
+            m = self.member_of_obj(me["inner"][0]) if me.get("kind") == "MemberExpr" else None
+            arg_nodes = list(sb["inner"][1:])
+            if m is not None and m in self.sig_ops and not any(a.get("kind") == "CXXDefaultArgExpr" for a in arg_nodes):
+                # `_sub.process(x);` — the call changes the sub-object, the value it returns is discarded
+                lean, effect = self.op_lookup(m, me["name"], sb, arg_nodes)
+                if not effect:
+                    raise Unsupported("discarded call %s.%s without effect" % (m, me["name"]))
+                self.call_op(m, me["name"], sb, arg_nodes)
+                return self.flush() + cont()
+        if k == "DeclStmt" and len(su["inner"]) == 1 and su["inner"][0].get("kind") == "VarDecl" and \
+                canon_type(strip_type(qt(su["inner"][0]))) in self.struct_types:
+            d = su["inner"][0]
+            init = [c for c in d.get("inner", []) if c.get("kind") != "FullComment"]
+            if len(init) != 1 or init[0].get("kind") != "CXXConstructExpr" or init[0].get("inner") or \
+                    not canon_type(init[0].get("ctorType", {}).get("qualType", "")).startswith("void ()"):
+                raise Unsupported("struct local `%s` is not default-constructed" % d["name"])
+            if d["name"] in self.struct_locals or self.var(d["name"]) in self.bound:
+                raise Unsupported("struct local `%s` shadows a name in scope" % d["name"])
+            # the default member initialisers are never observed: every field must be assigned before the local is returned, and
+            # the local cannot be read otherwise (CHECKED: `opt_return`, `e_DeclRefExpr`)
+            self.struct_locals[d["name"]] = {"id": d.get("id"), "type": canon_type(strip_type(qt(d))), "fields": {}, "depth": len(self.frames)}
+            try:
+                return cont()
+            finally:
+                del self.struct_locals[d["name"]]
+        lhs = None
+        if k == "BinaryOperator" and su.get("opcode") == "=":
+            lhs, rhs, whole = unwrap(su["inner"][0]), su["inner"][1], False
+        elif k == "CXXOperatorCallExpr" and self.callee_name(su) == "operator=":
+            lhs, rhs, whole = unwrap(su["inner"][1]), su["inner"][2], True
+        if lhs is not None and lhs.get("kind") == "MemberExpr" and self.struct_local(lhs["inner"][0]) is not None:
+            nm = self.struct_local(lhs["inner"][0])
+            sl = self.struct_locals[nm]
+            lstruct, fields = self.struct_types[sl["type"]]
+            f = lhs["name"]
+            if f not in fields:
+                raise Unsupported("field %s of %s" % (f, sl["type"]))
+            if f in sl["fields"] or len(self.frames) != sl["depth"]:
+                raise Unsupported("field `%s.%s` assigned twice / inside a branch" % (nm, f))
+            lt = fields[f][1]
+            if whole:
+                el = {"Array α": "double", "Array (Cx α)": "cmplx_t"}.get(lt)
+                sig = canon_type(qt(unwrap(su["inner"][0])))
+                if el is None or sig not in ("base_array<%s> &(base_array<%s> &&) noexcept" % (el, el), "base_array<%s> &(const base_array<%s> &)" % (el, el)):
+                    raise Unsupported("assignment to the field %s through %s" % (f, sig))
+            elif lt not in ("α", "Int", "Cx α"):
+                raise Unsupported("assignment to the field %s : %s" % (f, lt))
+            if lean_type_of(qt(rhs)) != lt:
+                raise Unsupported("value of type %s for the field %s : %s" % (qt(rhs), f, lt))
+            val = self.e(rhs)
+            pre = self.flush()
+            v = "%s_%s" % (self.var(nm), fields[f][0])
+            if v in self.bound:
+                raise Unsupported("name %s already in scope" % v)
+            self.declare(v, lt)
+            sl["fields"][f] = v
+            return pre + "let %s : %s := %s\n" % (v, lt, val) + cont()
+        if k == "ReturnStmt":
+            o = self.opt_return(su)
+            if o is not None:
+                if self.in_loop or (self.inner_depth and not self.hit_ctx):
+                    raise Unsupported("return inside a loop")
+                pre = self.flush()
+                return pre + self.result_text(o)
+            if self.hit_ctx:
+                raise Unsupported("return of something other than the std::optional result inside the searched loop")
+        if k == "ForStmt" and find_all(su, lambda x: x.get("kind") == "ReturnStmt"):
+            return self.first_hit_for(su, rest, final)
+        return super().stmts(lst, final, throws)
+
+    def first_hit_for(self, s, rest, final):
+        """`for (int i = 0; i < hi; ++i) BODY` where BODY may `return <optional>`: the iterations run in order until one returns;
+        `firstHit` (defined in the unit) is that search, BODY is a definition of its own returning (members, Option result)"""
+        if self.hit_ctx or self.frames or self.inner_depth or self.in_loop or not self.effect:
+            raise Unsupported("loop with a return inside a branch / loop")
+        init, condvar, cond, inc, body = s["inner"]
+        if condvar and condvar.get("kind"):
+            raise Unsupported("loop condition variable")
+        if not (init.get("kind") == "DeclStmt" and len(init["inner"]) == 1 and canon_type(qt(init["inner"][0])) == "int"
+                and init["inner"][0].get("inner") and unwrap(init["inner"][0]["inner"][0]).get("kind") == "IntegerLiteral"
+                and unwrap(init["inner"][0]["inner"][0])["value"] == "0"):
+            raise Unsupported("searched loop does not start with `int i = 0`")
+        cname = init["inner"][0]["name"]
+        isvar = lambda n: unwrap(n).get("kind") == "DeclRefExpr" and unwrap(n)["referencedDecl"].get("name") == cname
+        if not (cond.get("kind") == "BinaryOperator" and cond["opcode"] == "<" and isvar(cond["inner"][0]) and
+                kind_of_type(qt(cond["inner"][1])) == "int"):
+            raise Unsupported("searched loop condition is not `%s < bound`" % cname)
+        if not (inc.get("kind") == "UnaryOperator" and inc["opcode"] == "++" and isvar(inc["inner"][0])):
+            raise Unsupported("searched loop increment is not `++%s`" % cname)
+        if find_all(body, lambda x: x.get("kind") in ("BreakStmt", "ContinueStmt", "GotoStmt", "CXXThrowExpr")):
+            raise Unsupported("break / continue / throw inside the searched loop")
+        saved_reads, self.reads = self.reads, set()
+        hi = self.e(cond["inner"][1])
+        hi_members, self.reads = self.reads, saved_reads | self.reads
+        pre = self.flush()
+        v = self.var(cname)
+        if v in self.bound:
+            raise Unsupported("loop counter `%s` shadows a variable in scope" % v)
+        bound0 = set(self.bound)
+        saved_writes, self.writes = self.writes, set()
+        self.frames.append({"decl": {v}, "assigned": []})
+        self.bound.add(v)
+        self.types[v] = "Int"
+        self.loop_vars.add(v)
+        self.inner_depth += 1
+        self.hit_ctx = True
+        # the struct local must be declared at the depth it is used: frames count from here
+        txt = self.stmts([body], HIT_NONE)
+        self.hit_ctx = False
+        self.inner_depth -= 1
+        self.loop_vars.discard(v)
+        fr = self.frames.pop()
+        self.bound = set(bound0)
+        self.prune_locals()
+        body_writes, self.writes = self.writes, saved_writes | self.writes
+        if hi_members & body_writes:
+            raise Unsupported("loop bound `%s` reads member(s) %s, which the body assigns" % (hi, sorted(hi_members & body_writes)))
+        sv = self.svar()
+        for w in fr["assigned"]:
+            if w != sv:
+                raise Unsupported("the searched loop assigns the local `%s` (only the object may change)" % w)
+        self.note_assigned(sv)
+        nat = v + "_n"
+        body_txt = "let %s : Int := Int.ofNat %s\n" % (v, nat) + txt.replace(HIT_NONE, "(%s, none)" % sv)
+        mentions = lambda nm, t: re.search(r"(?<![A-Za-z0-9_'.])%s(?![A-Za-z0-9_'])" % re.escape(nm), t) is not None
+        cand = [nm for nm in sorted(set(bound0) | {"eps"}) if nm != sv and mentions(nm, body_txt)]
+        first = lambda nm: re.search(r"(?<![A-Za-z0-9_'.])%s(?![A-Za-z0-9_'])" % re.escape(nm), body_txt).start()
+        rank = lambda nm: self.decl_order.index(nm) if nm in self.decl_order else len(self.decl_order) + first(nm)
+        free = sorted(cand, key=lambda nm: (nm != "eps", rank(nm)))
+        for nm in free:
+            if nm not in self.types:
+                raise Unsupported("searched loop body uses `%s`, whose Lean type is unknown" % nm)
+        self.n_loops = getattr(self, "n_loops", 0) + 1
+        lname = "%s_loop%d" % (self.name_hint, self.n_loops)
+        rt = self.hit_result_type
+        self.aux_defs.append(
+            "/-- one iteration of the loop no. %d (`for (int %s = 0; %s < %s; ++%s)`, whose body may `return`): the members afterwards and\n"
+            "`some r` when the iteration executes `return r`, `none` when it runs to its end -/\n"
+            "def %s %s (%s : %s) (%s : Nat) : %s × Option (%s) :=\n%s\n" % (
+                self.n_loops, cname, cname, hi, cname, lname, " ".join("(%s : %s)" % (nm, self.types[nm]) for nm in free),
+                sv, self.types[sv], nat, self.types[sv], rt, indent(body_txt)))
+        self.prims.add("firstHit")
+        self.n_hits += 1
+        fh = "fh_%d" % self.n_hits
+        call = "(%s %s)" % (lname, " ".join(free)) if free else lname
+        hit = "(%s, some r)" % sv
+        return pre + "let %s := (firstHit %s (Int.toNat %s) 0 %s)\nlet %s := %s.1\nmatch %s.2 with\n| some r => %s\n| none =>\n%s" % (
+            fh, call, hi, sv, sv, fh, fh, ("(.ok %s)" % hit) if self.fallible else hit, indent(self.stmts(rest, final)))
+
+
+def gen_steps_detector():
+    math_tu = '#include "math.cpp"\n'
+    prefetch([(DETECTOR_TU, "PreambleDetectorImpl"), (DETECTOR_TU, "CDelay"), (DETECTOR_TU, "_is_valid"), (DETECTOR_TU, "MAFilter"),
+              (DETECTOR_TU, "PreambleDetector::Result"), (FIR_TU, "FftFilter"), (ARR_TU, "base_array::operator+"), (ARR_TU, "base_array::operator/"),
+              (ARR_TU, "base_array::base_array"), ('#include "utils.cpp"\n', "dsplib::flip"), (math_tu, "dsplib::abs2"), (math_tu, "dsplib::rms")])
+    has_body = lambda d: any(c.get("kind") == "CompoundStmt" for c in d.get("inner", []))
+    out = [HEADER % "lib/detector.cpp (`_is_valid`, `CDelay<cmplx_t>`: constructor / `push` / `extract`; `PreambleDetectorImpl`: constructor, "
+                    "`_convert_impulse`, `frame_len`, `process`), include/dsplib/detector.h (`PreambleDetector::Result`), lib/ma-filter.h "
+                    "(`MAFilter<real_t>::process(const base_array<T>&)`), include/dsplib/fir.h (`FftFilter::block_size`), lib/math.cpp "
+                    "(`abs2(const arr_cmplx&)`, `rms(const arr_cmplx&)`), lib/utils.cpp (`flip(const arr_cmplx&)` — PINNED), "
+                    "include/dsplib/array.h (`operator+(scalar)`, `operator/(array)`, `base_array(std::vector<T>&&)` — PINNED)",
+           "import DspVerif.Gen.StepsFftFilter\nimport DspVerif.Gen.CtorDyn\n" + STEPS_HEAD[0], STEPS_HEAD[1]]
+    # --- pinned array operations
+    first_param = lambda d: [canon_type(qt(p_)) for f in d["inner"] if f.get("kind") == "CXXMethodDecl" for p_ in params_of(f)][:1]
+    arr_tmpl = lambda nm, p0: (lambda d: d.get("kind") == "FunctionTemplateDecl" and d.get("name") == nm and first_param(d) == [p0])
+    pinned(ARR_TU, "base_array::operator+", arr_tmpl("operator+", "const T2 &"), "operator+(scalar)", DETECTOR_PINS, "base_array<T>::operator+(const T2&)")
+    pinned(ARR_TU, "base_array::operator+", arr_tmpl("operator+=", "const T2 &"), "operator+=(scalar)", DETECTOR_PINS, "base_array<T>::operator+=(const T2&)")
+    pinned(ARR_TU, "base_array::operator/", arr_tmpl("operator/", "const base_array<T2> &"), "operator/(array)", DETECTOR_PINS,
+           "base_array<T>::operator/(const base_array<T2>&)")
+    pinned(ARR_TU, "base_array::operator/", arr_tmpl("operator/=", "const base_array<T2> &"), "operator/=(array)", DETECTOR_PINS,
+           "base_array<T>::operator/=(const base_array<T2>&)")
+    pinned(ARR_TU, "base_array::base_array", lambda d: d.get("kind") == "CXXConstructorDecl" and canon_type(qt(d)) == "void (std::vector<T> &&)",
+           "base_array(vector&&)", DETECTOR_PINS, "base_array(std::vector<T>&&)")
+    pinned('#include "utils.cpp"\n', "dsplib::flip", lambda d: d.get("kind") == "FunctionDecl" and d.get("name") == "flip" and has_body(d) and
+           canon_type(qt(d)) == "arr_cmplx (const arr_cmplx &)", "flip(arr_cmplx)", DETECTOR_PINS, "flip(const arr_cmplx&) of lib/utils.cpp")
+    out.append("/-- `std::isnan(double)` (<cmath>; NOT translated — a documented primitive): a NaN is the only value that is not `≤` itself\n"
+               "(exact at `Float`; never true over `ℝ`) -/\n"
+               "def stdIsnan (v : α) : Prop := ¬ (v ≤ v)\n")
+    out.append("instance (v : α) : Decidable (stdIsnan v) := by unfold stdIsnan; exact inferInstance\n")
+    out.append("/-- `std::isinf(double)` (<cmath>; NOT translated — a documented primitive): `v` is not a NaN and `v - v` is one (`±inf - ±inf`;\n"
+               "exact at `Float`; never true over `ℝ`) -/\n"
+               "def stdIsinf (v : α) : Prop := (v ≤ v) ∧ ¬ ((v - v) ≤ (v - v))\n")
+    out.append("instance (v : α) : Decidable (stdIsinf v) := by unfold stdIsinf; exact inferInstance\n")
+    out.append("/-- `std::vector<cmplx_t>(size_type n)`: `n` value-initialised elements (`cmplx_t()` = `zeroC`, CHECKED in unit StepsBase); the `int`\n"
+               "argument converts to `size_type`: a negative one is a huge size and `std::vector` throws; here the empty vector -/\n"
+               "def vecNewC (n : Int) : Array (Cx α) := Array.replicate n.toNat zeroC\n")
+    out.append("/-- `base_array<T>(std::vector<T>&& v) : _vec(std::move(v))` (PINNED): the same elements -/\n"
+               "def arrOfVec {β : Type} (v : Array β) : Array β := v\n")
+    out.append("/-- `arr_cmplx flip(const arr_cmplx& x)` of lib/utils.cpp (PINNED): a copy of `x`, then `std::reverse(r.begin(), r.end())` -/\n"
+               "def arrFlipC (x : Array (Cx α)) : Array (Cx α) := x.reverse\n")
+    out.append("/-- `arr_cmplx / real_t`: `base_array<T>::operator/(const T2&)` = `array_cast` copy, then `operator/=`: `_vec[i] /= rhs` for every `i`\n"
+               "(all three PINNED in unit StepsArray); `_vec[i] /= rhs` is `cmplx_t::operator/=(const real_t&)` (regenerated: `Cx.divrAssign`) -/\n"
+               "def arrDivCR (a : Array (Cx α)) (d : α) : Array (Cx α) := a.map fun v => Cx.divrAssign v d\n")
+    out.append("/-- `arr_real + real_t`: `base_array<T>::operator+(const T2&)` = `array_cast` copy, then `operator+=`: `_vec[i] += rhs` for every `i` (PINNED) -/\n"
+               "def arrAddRS (a : Array α) (d : α) : Array α := a.map fun v => v + d\n")
+    out.append("/-- `arr_real / arr_real`: `base_array<T>::operator/(const base_array<T2>&)` = `array_cast` copy, then `operator/=` (PINNED):\n"
+               "`DSPLIB_ASSERT(this->size() == rhs.size())`, then `_vec[i] /= rhs[i]`.  The call THROWS exactly when this holds -/\n"
+               "def arrDivRAThrows (a b : Array α) : Prop := a.size ≠ b.size\n")
+    out.append("instance (a b : Array α) : Decidable (arrDivRAThrows a b) := by unfold arrDivRAThrows; exact inferInstance\n")
+    out.append("/-- … and the value returned when it does not throw (see `arrDivRAThrows`) -/\n"
+               "def arrDivRA (a b : Array α) : Array α :=\n  Array.ofFn (n := a.size) fun i => a[i] / (b.getD i.val zeroR)\n")
+    out.append("/-- `for (int i = 0; i < n; ++i) BODY` where BODY may `return r` out of the enclosing function: the iterations run in order, from\n"
+               "`i`, on the state `s`; the first one that returns ends the search (`some r`, with the state it left); `none` = the loop ran to its end -/\n"
+               "def firstHit {σ ρ : Type} (body : σ → Nat → σ × Option ρ) : Nat → Nat → σ → σ × Option ρ\n"
+               "  | 0, _, s => (s, none)\n"
+               "  | n + 1, i, s =>\n    match body s i with\n    | (s', some r) => (s', some r)\n    | (s', none) => firstHit body n (i + 1) s'\n")
+    csig = lambda n: canon_type(qt(unwrap(n["inner"][0])))
+    # --- abs2(const arr_cmplx&), rms(const arr_cmplx&) of lib/math.cpp (translated)
+    for cname, lname, sig, rt in (("abs2", "abs2Arr", "arr_real (const arr_cmplx &)", "Array α"),
+                                  ("rms", "rmsC", "real_t (const arr_cmplx &)", "α")):
+        fs = [d for d in clang_ast(math_tu, "dsplib::" + cname) if d.get("kind") == "FunctionDecl" and d.get("name") == cname and has_body(d) and
+              canon_type(qt(d)) == sig]
+        if len(fs) != 1:
+            raise Unsupported("%s(const arr_cmplx&) not found" % cname)
+        texts, _tr = gen_free_fn(fs[0], lname, "`%s %s(const arr_cmplx&)` of lib/math.cpp" % (sig.split(" (")[0], cname), ret_lt=rt)
+        out += texts
+
+    def mk_calls(eps):
+        calls = steps_user_calls()
+        scalar_abs2 = calls["abs2"]
+
+        def abs2_call(a, n):
+            if csig(n) == "arr_real (const arr_cmplx &)" and len(a) == 1:
+                return "(abs2Arr %s)" % a[0]
+            return scalar_abs2(a, n)
+
+        def sig_call(cxx, sig, lean, nargs=1):
+            def h(a, n):
+                if csig(n) != sig or len(a) != nargs:
+                    raise Unsupported("call of %s with signature %s" % (cxx, csig(n)))
+                return "(%s %s)" % (lean, " ".join(a))
+            return h
+        calls.update({"abs2": abs2_call, "eps": eps,
+                      "rms": sig_call("rms", "real_t (const arr_cmplx &)", "rmsC"),
+                      "flip": sig_call("flip", "arr_cmplx (const arr_cmplx &)", "arrFlipC"),
+                      "isinf": sig_call("isinf", "bool (double)", "stdIsinf"),
+                      "isnan": sig_call("isnan", "bool (double)", "stdIsnan"),
+                      "_is_valid": sig_call("_is_valid", "bool (const real_t &) noexcept", "detIsValid"),
+                      "_convert_impulse": sig_call("_convert_impulse", "arr_cmplx (const arr_cmplx &)", "detConvertImpulse")})
+        return calls
+    # --- _is_valid
+    fs = [d for d in clang_ast(DETECTOR_TU, "_is_valid") if d.get("kind") == "FunctionDecl" and d.get("name") == "_is_valid" and has_body(d)]
+    if len(fs) != 1 or canon_type(qt(fs[0])) != "bool (const real_t &) noexcept":
+        raise Unsupported("_is_valid(const real_t&) not found")
+    texts, _tr = gen_free_fn(fs[0], "detIsValid", "`bool _is_valid(const real_t& value)` of lib/detector.cpp (as a proposition)", calls=mk_calls(EpsCall()), ret_lt="Prop")
+    out += texts
+    out.append("instance (value : α) : Decidable (detIsValid value) := by unfold detIsValid; exact inferInstance\n")
+    # --- CDelay<cmplx_t>
+    tmpl = [d for d in clang_ast(DETECTOR_TU, "CDelay") if d.get("kind") == "ClassTemplateDecl" and d.get("name") == "CDelay"]
+    if len(tmpl) != 1:
+        raise Unsupported("class template CDelay not found")
+    specs = [c for c in tmpl[0]["inner"] if c.get("kind") == "ClassTemplateSpecializationDecl" and
+             [canon_type(qt(a)) for a in c.get("inner", []) if a.get("kind") == "TemplateArgument"] == ["cmplx_t"] and
+             any(x.get("kind") == "FieldDecl" for x in c.get("inner", []))]
+    if len(specs) != 1:
+        raise Unsupported("instantiation CDelay<cmplx_t> not found")
+    crec = specs[0]
+    cs = ctors_of(crec)
+    if len(cs) != 1:
+        raise Unsupported("CDelay<cmplx_t>: expected exactly one user-written constructor, found %d" % len(cs))
+
+    def cd_setup(tr):
+        base_init = tr.init_value
+
+        def init_value(m, n):
+            u = n
+            while u.get("kind") == "ExprWithCleanups":
+                u = u["inner"][0]
+            if tr.members[m][1] == "Array (Cx α)" and canon_type(strip_type(qt(u))) == "std::vector<cmplx_t>":
+                ct = canon_type(u.get("ctorType", {}).get("qualType", ""))
+                args = [a for a in u.get("inner", []) if a.get("kind") != "CXXDefaultArgExpr"]
+                if u.get("kind") != "CXXConstructExpr" or ct != "void (std::vector::size_type, const std::vector<cmplx_t>::allocator_type &)" or len(args) != 1:
+                    raise Unsupported("initialiser of the std::vector<cmplx_t> member %s through %s" % (m, ct))
+                a0 = args[0]
+                if a0.get("kind") == "ImplicitCastExpr" and a0.get("castKind") == "IntegralCast":
+                    a0 = a0["inner"][0]
+                if canon_type(strip_type(qt(a0))) != "int":
+                    raise Unsupported("std::vector(n) with n : %s" % qt(a0))
+                return "(vecNewC %s)" % tr.e(a0)
+            return base_init(m, n)
+        tr.init_value = init_value
+    texts, _tr = gen_ctor(crec, cs[0], CDELAY_TABLE, "cdelayCtor", "CDelay<cmplx_t>", "CDelayState", "void (int)", pure=True, setup=cd_setup,
+                          doc_extra="\n(`std::vector<T>(n)` with a negative `n` throws `std::length_error` in C++: see `vecNewC`.)")
+    out += texts
+    cd_order = check_members(crec, CDELAY_TABLE, "CDelay<cmplx_t>")
+    cd_members = {m: (m.lstrip("_"), lean_type_of(CDELAY_TABLE[m]), "%s %s" % (CDELAY_TABLE[m], m)) for m in cd_order}
+
+    def method_of(rec, name, sig, what):
+        ms = [m for m in methods_named(rec, name) if canon_type(qt(m)) == sig]
+        if len(ms) != 1:
+            raise Unsupported("%s::%s with signature `%s` not found" % (what, name, sig))
+        return ms[0]
+
+    def gen_method(rec, name, sig, what, members, state_t, lname, doc, effect, ret_lt=None, sig_ops=None, calls=None, void=False, extra=()):
+        m = method_of(rec, name, sig, what)
+        tr = DetTr(members=members, single=True, user_calls=calls or mk_calls(EpsCall()), effect=effect, sig_ops=sig_ops or {})
+        tr.loop_param_order = "decl"
+        tr.name_hint = lname
+        tr.types["self"] = state_t
+        for nm, ty in extra:
+            tr.bound.add(nm)
+            tr.decl_order.append(nm)
+            tr.types[nm] = ty
+        ps = []
+        for p_ in params_of(m):
+            lt = lean_type_of(qt(p_))
+            if lt not in ("α", "Int", "Cx α", "Array α", "Array (Cx α)") or "*" in qt(p_) or ("&" in qt(p_) and "const" not in qt(p_)):
+                raise Unsupported("%s::%s parameter %s : %s" % (what, name, p_["name"], qt(p_)))
+            v = tr.var(p_["name"])
+            if lt.startswith("Array"):
+                if "&" not in qt(p_):
+                    raise Unsupported("%s::%s: array parameter %s by value" % (what, name, p_["name"]))
+                tr.arrays[p_["name"]] = (v, lt)
+            tr.declare(v, lt)
+            ps.append("(%s : %s)" % (v, lt))
+        body = tr.stmts([body_of(m)], "self" if (void and effect) else FALLOFF)
+        if FALLOFF in body or tr.pre or tr.uninit:
+            raise Unsupported("%s::%s: control can reach the end without a return" % (what, name))
+        if bool(tr.writes) != bool(effect):
+            raise Unsupported("%s::%s: %s" % (what, name, "writes members" if tr.writes else "writes no member"))
+        rt = state_t if (void and effect) else ("%s × %s" % (state_t, ret_lt) if effect else ret_lt)
+        return list(tr.aux_defs) + ["/-- %s -/\ndef %s %s(self : %s)%s : %s :=\n%s\n" % (
+            doc, lname, "".join("(%s : %s) " % e_ for e_ in extra), state_t, "".join(" " + x for x in ps), rt, indent(body))], tr
+    texts, _tr = gen_method(crec, "push", "void (const cmplx_t &) noexcept", "CDelay<cmplx_t>", cd_members, "CDelayState α", "cdelayPush",
+                            "`void CDelay<cmplx_t>::push(const cmplx_t& v)`: the members afterwards", True, void=True)
+    out += texts
+    texts, _tr = gen_method(crec, "extract", "std::vector<cmplx_t> () const noexcept", "CDelay<cmplx_t>", cd_members, "CDelayState α", "cdelayExtract",
+                            "`std::vector<cmplx_t> CDelay<cmplx_t>::extract() const`", False, ret_lt="Array (Cx α)")
+    out += texts
+    texts, _tr = gen_method(crec, "reset", "void () noexcept", "CDelay<cmplx_t>", cd_members, "CDelayState α", "cdelayReset",
+                            "`void CDelay<cmplx_t>::reset()`: the members afterwards (`std::fill(_buf.begin(), _buf.end(), T())`: `arrFill`, unit StepsArray)", True, void=True)
+    out += texts
+    # --- MAFilter<real_t>::process(const base_array<T>&)
+    mt = [d for d in clang_ast(DETECTOR_TU, "MAFilter") if d.get("kind") == "ClassTemplateDecl" and d.get("name") == "MAFilter"]
+    if len(mt) != 1:
+        raise Unsupported("class template MAFilter not found")
+    mspecs = [c for c in mt[0]["inner"] if c.get("kind") == "ClassTemplateSpecializationDecl" and
+              [canon_type(qt(a)) for a in c.get("inner", []) if a.get("kind") == "TemplateArgument"] == ["double"] and
+              any(x.get("kind") == "FieldDecl" for x in c.get("inner", []))]
+    if len(mspecs) != 1:
+        raise Unsupported("instantiation MAFilter<double> not found")
+    mrec = mspecs[0]
+    ma_order = check_members(mrec, MAFILTER_TABLE, "MAFilter<real_t>")
+    ma_members = {m: (m.lstrip("_"), lean_type_of(MAFILTER_TABLE[m]), "%s %s" % (MAFILTER_TABLE[m], m)) for m in ma_order}
+    method_of(mrec, "process", "double (const double &)", "MAFilter<real_t>")      # the scalar overload: `maFilterStep` of unit StepsDyn
+    texts, _tr = gen_method(mrec, "process", "base_array<double> (const base_array<double> &)", "MAFilter<real_t>", ma_members, "MAFilterState α",
+                            "maFilterProcess", "`base_array<T> MAFilter<real_t>::process(const base_array<T>& x)`: the members afterwards and the returned array;\n"
+                            "`process(x[i])` is the scalar overload `MAFilter<real_t>::process(const real_t&)` = `maFilterStep` (unit StepsDyn)", True,
+                            ret_lt="Array α", sig_ops={None: {("process", ("α",), "α"): ("maFilterStep", True)}})
+    out += texts
+    # --- FftFilter::block_size()
+    frec = record(clang_ast(FIR_TU, "FftFilter"), "FftFilter")
+    ff_order = check_members(frec, FFTFILTER_TABLE, "FftFilter")
+    ff_members = {m: (m.lstrip("_"), lean_type_of(FFTFILTER_TABLE[m]), "%s %s" % (FFTFILTER_TABLE[m], m)) for m in ff_order}
+    texts, _tr = gen_method(frec, "block_size", "int () const", "FftFilter", ff_members, "FftFilterState α", "fftFilterBlockSize",
+                            "`int FftFilter::block_size() const`", False, ret_lt="Int")
+    out += texts
+    for nm, sig in (("process", "arr_cmplx (const arr_cmplx &)"),):
+        if len([m for m in frec["inner"] if m.get("kind") == "CXXMethodDecl" and m.get("name") == nm and canon_type(qt(m)) == sig]) != 1:
+            raise Unsupported("FftFilter::%s with signature %s not found" % (nm, sig))
+    # --- PreambleDetector::Result
+    rrec = record(clang_ast(DETECTOR_TU, "PreambleDetector::Result"), "Result")
+    r_order = check_members(rrec, DETRESULT_TABLE, "PreambleDetector::Result")
+    if [c for c in rrec["inner"] if c.get("kind") in ("CXXConstructorDecl", "CXXMethodDecl") and not c.get("isImplicit")]:
+        raise Unsupported("PreambleDetector::Result has user-written constructors / member functions")
+    r_fields = {f: (f, lean_type_of(DETRESULT_TABLE[f])) for f in r_order}
+    out.append(struct_text("DetResult", "`PreambleDetector::Result` (include/dsplib/detector.h; C++ declarations CHECKED): the value a reporting call returns",
+                           [(f, lean_type_of(DETRESULT_TABLE[f]), "%s %s" % (DETRESULT_TABLE[f], f)) for f in r_order]))
+    # --- PreambleDetectorImpl
+    prec = record(clang_ast(DETECTOR_TU, "PreambleDetectorImpl"), "PreambleDetectorImpl")
+    # `static arr_cmplx _convert_impulse(const arr_cmplx& h)`
+    ci = method_of(prec, "_convert_impulse", "arr_cmplx (const arr_cmplx &)", "PreambleDetectorImpl")
+    if ci.get("storageClass") != "static":
+        raise Unsupported("PreambleDetectorImpl::_convert_impulse is not static")
+
+    class CiTr(StepTr):
+        def e_CXXOperatorCallExpr(self, n):
+            args = n["inner"][1:]
+            if self.callee_name(n) == "operator/" and len(args) == 2 and canon_type(strip_type(qt(args[0]))) in ARRAY_CX_T and \
+                    kind_of_type(qt(args[1])) == "real":
+                if canon_type(qt(unwrap(n["inner"][0]))) != "base_array<cmplx_t> (const double &) const":
+                    raise Unsupported("operator/ on an arr_cmplx through %s" % qt(unwrap(n["inner"][0])))
+                return "(arrDivCR %s %s)" % (self.e(args[0]), self.e(args[1]))
+            return super().e_CXXOperatorCallExpr(n)
+    ctr = CiTr(members={}, single=True, user_calls=mk_calls(EpsCall()), effect=False)
+    ctr.bound = set()
+    hn = params_of(ci)[0]["name"]
+    ctr.arrays[hn] = (ctr.var(hn), "Array (Cx α)")
+    ctr.declare(ctr.var(hn), "Array (Cx α)")
+    body = ctr.stmts([body_of(ci)], FALLOFF)
+    if FALLOFF in body or ctr.pre or ctr.aux_defs:
+        raise Unsupported("PreambleDetectorImpl::_convert_impulse: unexpected shape")
+    out.append("/-- `static arr_cmplx PreambleDetectorImpl::_convert_impulse(const arr_cmplx& %s)` -/\n"
+               "def detConvertImpulse (%s : Array (Cx α)) : Array (Cx α) :=\n%s\n" % (hn, ctr.var(hn), indent(body)))
+    # the constructor
+    subobj_types = {"FftFilter": "FftFilterState α", "MAFilterR": "MAFilterState α", "CDelay<cmplx_t>": "CDelayState α"}
+    subctors = {
+        "FftFilter": {"lean": "fftFilterCtor nextpow2 fftN", "sig": "void (const arr_cmplx &)", "ret": "FftFilterState α", "assign": []},
+        "MAFilterR": {"lean": "maFilterCtor", "sig": "void (int)", "ret": "MAFilterState α", "assign": []},
+        "CDelay<cmplx_t>": {"lean": "cdelayCtor", "sig": "void (int)", "ret": "CDelayState α", "assign": []},
+    }
+    cs = ctors_of(prec)
+    if len(cs) != 1:
+        raise Unsupported("PreambleDetectorImpl: expected exactly one user-written constructor, found %d" % len(cs))
+
+    def det_setup(tr):
+        tr.extra_params = [("nextpow2", "Int → Int", "`int nextpow2(int)` of lib/math.cpp (NOT translated: a parameter, as in `fftFilterCtor`)"),
+                           ("fftN", "Array (Cx α) → Int → Array (Cx α)", "`arr_cmplx fft(const arr_cmplx&, int n)` (NOT translated: a parameter, as in `fftFilterCtor`; C01)")]
+    texts, _tr = gen_ctor(prec, cs[0], DETECTOR_TABLE, "detectorCtor", "PreambleDetectorImpl", "DetectorState", "void (const arr_cmplx &, real_t)", pure=True,
+                          subobj_types=subobj_types, subctors=subctors, user_calls=mk_calls(EpsCall()), setup=det_setup,
+                          doc_extra="\nThe sub-objects are constructed by the generated constructors `fftFilterCtor` (unit StepsFftFilter), `maFilterCtor` (unit CtorDyn), `cdelayCtor`.")
+    out += texts
+    d_order = check_members(prec, DETECTOR_TABLE, "PreambleDetectorImpl")
+    d_members = {m: (m.lstrip("_"), lean_type_of(DETECTOR_TABLE[m], subobj_types), "%s %s" % (DETECTOR_TABLE[m], m)) for m in d_order}
+    sub_ops = {
+        "_corr_flt": {("process", ("Array (Cx α)",), "Array (Cx α)"): ("fftFilterProcess fft1 ifft1", True),
+                      ("block_size", (), "Int"): ("fftFilterBlockSize", False)},
+        "_pow_flt": {("process", ("Array α",), "Array α"): ("maFilterProcess", True)},
+        "_delay": {("push", ("Cx α",), "Unit"): ("cdelayPush", True),
+                   ("extract", (), "Array (Cx α)"): ("cdelayExtract", False)},
+    }
+    texts, _tr = gen_method(prec, "frame_len", "int () const noexcept", "PreambleDetectorImpl", d_members, "DetectorState α", "detectorFrameLen",
+                            "`int PreambleDetectorImpl::frame_len() const`", False, ret_lt="Int", sig_ops=sub_ops)
+    out += texts
+    # process
+    pm = method_of(prec, "process", "std::optional<PreambleDetector::Result> (const arr_cmplx &)", "PreambleDetectorImpl")
+    eps = EpsCall()
+
+    class ProcTr(DetTr):
+        def e_CXXOperatorCallExpr(self, n):
+            args = n["inner"][1:]
+            nm = self.callee_name(n)
+            sig = canon_type(qt(unwrap(n["inner"][0])))
+            if nm == "operator+" and len(args) == 2 and canon_type(strip_type(qt(args[0]))) in ARRAY_REAL_T and kind_of_type(qt(args[1])) == "real":
+                if sig != "base_array<double> (const double &) const":
+                    raise Unsupported("operator+ on an arr_real through %s" % sig)
+                return "(arrAddRS %s %s)" % (self.e(args[0]), self.e(args[1]))
+            if nm == "operator/" and len(args) == 2 and canon_type(strip_type(qt(args[0]))) in ARRAY_REAL_T and \
+                    canon_type(strip_type(qt(args[1]))) in ARRAY_REAL_T:
+                if sig != "base_array<double> (const base_array<double> &) const":
+                    raise Unsupported("operator/ on two arr_real through %s" % sig)
+                if not self.fallible or self.frames or self.inner_depth or self.in_loop or self.cond_depth or self.hit_ctx:
+                    raise Unsupported("array / array (may throw) inside a branch / loop / condition")
+                a, b = self.e(args[0]), self.e(args[1])
+                # operator/=(const base_array<T2>&): DSPLIB_ASSERT(this->size() == rhs.size(), "arrays sizes must be equal") (PINNED, the
+                # message is part of the digest): the statement the quotient occurs in is reached only when the sizes agree
+                self.pre.append('if (arrDivRAThrows %s %s) then (.error "arrays sizes must be equal") else\n' % (a, b))
+                return "(arrDivRA %s %s)" % (a, b)
+            return super().e_CXXOperatorCallExpr(n)
+    ops = dict(sub_ops)
+    ops[None] = {("frame_len", (), "Int"): ("detectorFrameLen", False)}
+    tr = ProcTr(members=d_members, single=True, user_calls=mk_calls(eps), effect=True, sig_ops=ops,
+                struct_types={"PreambleDetector::Result": ("DetResult", r_fields)},
+                opt_of={"std::optional<PreambleDetector::Result>": "PreambleDetector::Result"})
+    tr.fallible = True
+    tr.loop_param_order = "decl"
+    tr.name_hint = "detectorProcess"
+    tr.hit_result_type = "DetResult α"
+    tr.types.update({"self": "DetectorState α", "fft1": "Array (Cx α) → Array (Cx α)", "ifft1": "Array (Cx α) → Array (Cx α)"})
+    for nm in ("fft1", "ifft1"):
+        tr.bound.add(nm)
+        tr.decl_order.append(nm)
+    pn = params_of(pm)[0]["name"]
+    pv = tr.var(pn)
+    if pv in tr.bound:
+        raise Unsupported("PreambleDetectorImpl::process: parameter named %s" % pv)
+    tr.arrays[pn] = (pv, "Array (Cx α)")
+    tr.declare(pv, "Array (Cx α)")
+    body = tr.stmts([body_of(pm)], FALLOFF)
+    if FALLOFF in body or tr.pre or tr.uninit:
+        raise Unsupported("PreambleDetectorImpl::process: control can reach the end without a return")
+    if tr.writes - {"_corr_flt", "_pow_flt", "_delay"}:
+        raise Unsupported("PreambleDetectorImpl::process writes the members %s" % sorted(tr.writes))
+    eps_arg = "(eps : α) " if eps.used else ""
+    out += tr.aux_defs
+    out.append("/-- `std::optional<PreambleDetector::Result> PreambleDetectorImpl::process(const arr_cmplx& %s)`: `.error` = the exception thrown, else the members\n"
+               "afterwards and the returned optional.  `fft1` / `ifft1` = `fft(const arr_cmplx&)` / `ifft(const arr_cmplx&)` (NOT translated: parameters of\n"
+               "`fftFilterProcess`; C01 / C02); `eps` = `eps()`.  The element-wise quotient `abs2(cx) / (pwx + eps())` throws when the lengths differ\n"
+               "(`arrDivRAThrows`; it never does for an object with `0 ≤ _nx < _n`: bridge `Props/C18Gen.lean`). -/\n"
+               "def detectorProcess %s(fft1 ifft1 : Array (Cx α) → Array (Cx α)) (self : DetectorState α) (%s : Array (Cx α)) :\n"
+               "    Except String (DetectorState α × Option (DetResult α)) :=\n%s\n" % (pn, eps_arg, pv, indent(body)))
+    # --- PreambleDetectorImpl::reset()
+    if len([m for m in frec["inner"] if m.get("kind") == "CXXMethodDecl" and m.get("name") == "process" and canon_type(qt(m)) == "arr_real (const arr_real &)"]) != 1:
+        raise Unsupported("FftFilter::process(const arr_real&) not found")
+    rops = {
+        "_corr_flt": {("process", ("Array α",), "Array α"): ("fftFilterProcessR fft1 ifft1", True)},
+        "_pow_flt": {("process", ("Array α",), "Array α"): ("maFilterProcess", True)},
+        "_delay": {("reset", (), "Unit"): ("cdelayReset", True)},
+        None: {("frame_len", (), "Int"): ("detectorFrameLen", False)},
+    }
+    tf = "Array (Cx α) → Array (Cx α)"
+    texts, rtr = gen_method(prec, "reset", "void ()", "PreambleDetectorImpl", d_members, "DetectorState α", "detectorReset",
+                            "`void PreambleDetectorImpl::reset()`: the members afterwards.  `fft1` / `ifft1` as in `detectorProcess`; `_corr_flt.process(zeros(…))` is the\n"
+                            "overload `FftFilter::process(const arr_real&)` = `fftFilterProcessR` (unit StepsFftFilter)", True, void=True, sig_ops=rops,
+                            extra=(("fft1", tf), ("ifft1", tf)))
+    if rtr.writes - {"_corr_flt", "_pow_flt", "_delay"}:
+        raise Unsupported("PreambleDetectorImpl::reset writes the members %s" % sorted(rtr.writes))
+    out += texts
+    out.append("end Gen\nend Dsp\n")
+    return "\n".join(out)
+
+
+# ------------------------------------------------------------------------------------------
 UNITS = {}
 
 
@@ -5947,6 +6649,8 @@ unit("CtorDyn", ["include/dsplib/audio/compressor.h", "include/dsplib/audio/limi
                  "lib/agc.cpp", "lib/ma-filter.h", "include/dsplib/agc.h"])(gen_ctor_dyn)
 unit("CtorResample", ["lib/resample/fir-decimator.cpp", "lib/resample/fir-interpolator.cpp", "lib/resample/fir-rate-converter.cpp",
                       "lib/resample/resample.cpp", "include/dsplib/resample.h", "include/dsplib/utils.h", "lib/utils.cpp"])(gen_ctor_resample)
+unit("StepsDetector", ["lib/detector.cpp", "include/dsplib/detector.h", "lib/ma-filter.h", "include/dsplib/fir.h", "lib/fir.cpp", "lib/math.cpp",
+                       "lib/utils.cpp", "include/dsplib/array.h"])(gen_steps_detector)
 unit("StepsDyn", ["include/dsplib/audio/compressor.h", "include/dsplib/audio/limiter.h", "include/dsplib/audio/noise-gate.h",
                   "lib/agc.cpp", "lib/ma-filter.h", "include/dsplib/agc.h"])(gen_steps_dyn)
 
